@@ -36,12 +36,19 @@ func genP2Set(rng *rand.Rand, maxFiles int, contents []string, allowBig bool) sc
 	if rng.Intn(4) == 0 {
 		nf = 1 + rng.Intn(3)
 	}
+	if maxFiles >= 6 && rng.Intn(12) == 0 {
+		// many small files: file IDs that agree in some bytes become likely
+		nf = 40 + rng.Intn(30)
+	}
 	content := contents[rng.Intn(len(contents))]
 	set := scen.Set{SliceSize: slice, Content: content}
 	set.Blocks = []int{1, 2, 3, 4, 5, 6, 7, 8, 9, 10, 11, 12, 33}[rng.Intn(13)]
 	budget := 60000
 	for i := 0; i < nf; i++ {
 		n := scen.SizeAround(rng, slice, allowBig && slice >= 64)
+		if nf >= 40 {
+			n = 1 + rng.Intn(2*slice)
+		}
 		if slice >= 512 && n > 8*slice {
 			n = 8 * slice
 		}
